@@ -160,11 +160,7 @@ pub fn run_case(c: &WCase) -> Outcome {
             let (a, b) = (&with.nodes[pi], &without.nodes[pi]);
             out.count("differential_lists_compared", a.game.call_hashes.len() as u64);
             // per-address sequences: the interleaving of different addresses within one poll is unspecified
-            let ev = |n: &Node| {
-                let mut v = n.events.iter().filter(|(_, e)| e.addr().is_none_or(|x| x < 100)).cloned().collect::<Vec<_>>();
-                v.sort_by_key(|(_, e)| e.addr());
-                v
-            };
+            let ev = |n: &Node| canon_events(n).into_iter().filter(|(_, e)| e.addr().is_none_or(|x| x < 100)).collect::<Vec<_>>();
             let first_div = a.game.call_hashes.iter().zip(b.game.call_hashes.iter()).position(|(x, y)| x != y);
             if first_div.is_some() || a.game.call_hashes.len() != b.game.call_hashes.len() || a.game.st != b.game.st || ev(a) != ev(b) || a.errs != b.errs {
                 out.violate(Viol {
